@@ -118,6 +118,9 @@ theorem switch_miner_messages (s : Sess) (pool : String) (cb : Option Nat) (cbN 
     | none => left; simp [isToMiner, List.filter]
     | some p =>
       simp only
+      by_cases hmm : (findDest s (pool, "acct" ++ pool ++ ".w" ++ pool)).isNone ∧ s.vr ∧ p.mask ≠ s.negMask
+      · left; simp [hmm, isToMiner, List.filter]
+      simp only [hmm, if_false]
       cases hr : resend (acquire s pool p ("acct" ++ pool ++ ".w" ++ pool)).2.1 with
       | none => left; simp [hacq, isToMiner, List.filter]
       | some msgs =>
